@@ -113,7 +113,8 @@ fn check_invalid_text(rep: &mut Report, seed: u64, i: u64) {
         4 => Item::tag(rng.below(40), bad),
         _ => Item::array_indef(vec![Item::null(), bad]),
     };
-    let enc = it.encode();
+    // half of the cases: long runs of multi-byte characters before the offending bytes
+    let enc = if i % 2 == 0 { it.encode() } else { crate::c02::bad_text_item(&mut rng) };
     rep.seen(fnv64(&enc) ^ 0x5555);
     if let Some(out) = check_total(rep, &enc, true) {
         if !out.contains("!!!") {
